@@ -153,6 +153,7 @@ class Unit:
         self._modstack = []
         self.e9_stubs = []
         self.e9_n = 0
+        self._e9_names = {}
         self.labels = {}
         self.notes = []
         self.externs = ["http", "hyper", "bytes", "tokio", "serde_json", "itertools", "hex", "hmac_sha256",
@@ -271,6 +272,34 @@ class Unit:
         return []
 
     # ---- take_ext: repo types kept OUTSIDE verus!{} (opaque to Verus, fully checked by rustc) ----
+    def placeholder_ext(self, sf, paths, modname, keep=("Clone",)):
+        """E13: a repo type that no function under contract looks into (an actor handle, a guard object) is declared
+        OUTSIDE verus!{} as a field-less placeholder `pub struct Name(());` carrying those of the real type's derives
+        listed in `keep` (read from the tree), re-exported and declared an opaque external type. Only its NAME and
+        the real signatures of the stubbed methods taken from the tree are used. Listed in the evidence."""
+        saved = self.pieces
+        self.pieces = self.ext_pieces
+        self.emit("pub mod %s {\n#![allow(unused_imports, dead_code, non_snake_case)]" % modname, "glue", "E13")
+        names = []
+        for path in paths:
+            it = sf.item(path)
+            if it["kind"] not in ("struct", "enum"):
+                raise Undecided("placeholder requested for %s which is a %s" % (path, it["kind"]))
+            ders = []
+            for a in it.get("attrs", []):
+                if a["name"] == "derive":
+                    inner = a["text"][a["text"].index("(") + 1:a["text"].rindex(")")]
+                    ders += [x.strip() for x in inner.split(",") if x.strip()]
+            kept = [d for d in ders if d in keep]
+            self.emit("%spub struct %s(());" % (("#[derive(%s)]\n" % ", ".join(kept)) if kept else "", it["name"]), "rule", "E13")
+            names.append(it["name"])
+            self.rule("E13", "%s %s declared as opaque placeholder (derives kept: %s)  <- %s:%d" % (it["kind"], path, ",".join(kept) or "-", sf.rel, sf.line_of(it["span"][0])))
+        self.emit("} // mod %s" % modname, "glue", "E13")
+        self.pieces = saved
+        self.emit("pub use crate::%s::{%s};" % (modname, ", ".join(names)), "glue", "E13")
+        for n in names:
+            self.emit("#[verifier::external_type_specification]\n#[verifier::external_body]\npub struct VxEx_%s_%s(crate::%s::%s);" % (modname, n, modname, n), "glue", "E13")
+
     def take_ext(self, sf, paths, modname, uses="", opaque=True):
         """Copy the listed type definitions verbatim (derives kept) into a plain-Rust module `modname` placed
         outside the verus! block, re-export them into the current verus module and declare them as opaque
@@ -461,7 +490,7 @@ class Unit:
     def take_fn(self, sf, path, contract="", ret="r", pre_body="", loops=None, loop_attrs=None, hints=(),
                 e9=(), ghost=None, ghost_calls=(), loop_ends=None, external_body=False, keep_attrs=(), make_pub=True,
                 rename=None, drop_body=False, e10=True, extra_attrs="", under_contract=True, sig_edits=(),
-                lift_closures=(), loop_iter_names=None, desugar_for=None):
+                lift_closures=(), loop_iter_names=None, desugar_for=None, e6=()):
         """Extract one function verbatim and splice contract text into it.
         contract   : text placed between signature and body (requires/ensures/decreases)
         ret        : name given to the return value ('-> T' becomes '-> (r: T)')
@@ -486,6 +515,9 @@ class Unit:
             o = it["output"]
             edits.append((o[0], o[0], "(%s: " % ret, "rule", "E7"))
             edits.append((o[1], o[1], ")", "rule", "E7"))
+        if it["output"] is None and it["is_async"] and "ensures" in contract and not any("->" in t for (_, _, t) in sig_edits):
+            # this Verus drops the ensures of an async fn without a declared return type at call sites: name the unit return
+            edits.append((it["sig"][1], it["sig"][1], " -> (r: ())", "rule", "E7"))
         # E10 async mut params
         e10_lets = ""
         if it["is_async"] and e10:
@@ -588,6 +620,9 @@ class Unit:
                 for e in e9:
                     edits += self._e9(sf, it, lo, hi, e, path)
                     applied.append("E9")
+                for e in e6:
+                    edits += self._e6(sf, it, e, path)
+                    applied.append("E6")
                 for (anchor, ordinal, extra) in ghost_calls:
                     a, b = self.find_anchor(sf, lo, hi, anchor, ordinal, path)
                     # find the call whose callee span contains a
@@ -640,16 +675,33 @@ class Unit:
     def _e9(self, sf, it, lo, hi, e, path):
         anchor, ordinal, params, args, ret_type, stub_contract = e[:6]
         opts = e[6] if len(e) > 6 else {}
+        spans = []
         if isinstance(anchor, (tuple, list)):
             # anchor given as a byte span computed from the syn index (calls / closures / matches)
             a, b = anchor
             if not (lo <= a <= b <= hi):
                 raise Undecided("%s: E9 span outside the function body" % path)
             anchor = sf.s(a, b)
+            spans = [(a, b)]
+        elif ordinal == "all":
+            body = sf.s(lo, hi)
+            for m in re.finditer(re.escape(anchor), body):
+                # token boundary: do not match inside a longer identifier
+                nxt = body[m.end():m.end() + 1]
+                if nxt and (nxt.isalnum() or nxt == "_"):
+                    continue
+                a = lo + len(body[:m.start()].encode("utf-8"))
+                spans.append((a, a + len(anchor.encode("utf-8"))))
+            if not spans and not opts.get("optional"):
+                raise Undecided("anchor %r matches 0 places in %s (%s)" % (anchor, sf.rel, path))
         else:
-            a, b = self.find_anchor(sf, lo, hi, anchor, ordinal, path)
-        self.e9_n += 1
-        name = opts.get("name") or ("vx_e9_%s_%d" % (re.sub(r"\W+", "_", it["name"]), self.e9_n))
+            spans = [self.find_anchor(sf, lo, hi, anchor, ordinal, path)]
+        if not spans:
+            return []
+        name = opts.get("name")
+        if not name:
+            self.e9_n += 1
+            name = "vx_e9_%s_%d" % (re.sub(r"\W+", "_", it["name"]), self.e9_n)
         is_async = opts.get("is_async", False)
         body_text = opts.get("body") or anchor
         wrap = opts.get("wrap")  # E11
@@ -658,13 +710,129 @@ class Unit:
         stub = "#[verifier::external_body]\npub %sfn %s%s(%s)%s\n%s\n{ %s }\n" % (
             "async " if is_async else "", name, opts.get("generics", ""), params,
             (" -> (r: %s)" % ret_type) if ret_type else "", stub_contract.rstrip(), body_text)
-        self.e9_stubs.append(stub)
+        if name not in self._e9_names:
+            self._e9_names[name] = stub
+            self.e9_stubs.append(stub)
+        elif self._e9_names[name] != stub:
+            raise Undecided("E9 stub %s defined twice with different text" % name)
         rid = "E11" if wrap else "E9"
-        self.rule(rid, "%s: `%s` -> %s(%s)  [%s:%d]" % (path, anchor if len(anchor) < 80 else anchor[:77] + "...", name, args, sf.rel, sf.line_of(a)))
         call = "%s(%s)%s" % (name, args, ".await" if is_async and not opts.get("no_await") else "")
         if opts.get("prefix"):
             call = opts["prefix"] + call
-        return [(a, b, call, "rule", rid)]
+        out = []
+        for (a, b) in spans:
+            self.rule(rid, "%s: `%s` -> %s(%s)  [%s:%d]" % (path, anchor if len(anchor) < 80 else anchor[:77] + "...", name, args, sf.rel, sf.line_of(a)))
+            out.append((a, b, call, "rule", rid))
+        return out
+
+    @staticmethod
+    def parse_format_macro(text):
+        """text = 'format!( "lit", a, b )' -> (segments, [arg texts]); only `{}` placeholders are supported"""
+        i = text.index("(")
+        j = text.rindex(")")
+        inner = text[i + 1:j]
+        k = 0
+        while inner[k] in " \n\t\r":
+            k += 1
+        if inner[k] != '"':
+            raise Undecided("format! literal is not a plain string literal")
+        k += 1
+        lit = []
+        while True:
+            ch = inner[k]
+            if ch == "\\":
+                nx = inner[k + 1]
+                lit.append({"n": "\n", "t": "\t", "\\": "\\", '"': '"', "r": "\r", "0": "\0", "'": "'"}.get(nx))
+                if lit[-1] is None:
+                    raise Undecided("unsupported escape in format! literal")
+                k += 2
+                continue
+            if ch == '"':
+                k += 1
+                break
+            lit.append(ch)
+            k += 1
+        lit = "".join(lit)
+        rest = inner[k:]
+        # split args on top-level commas
+        args, depth, cur, instr = [], 0, "", False
+        for ch in rest:
+            if instr:
+                cur += ch
+                if ch == '"':
+                    instr = False
+                continue
+            if ch == '"':
+                instr = True
+                cur += ch
+            elif ch in "([{":
+                depth += 1
+                cur += ch
+            elif ch in ")]}":
+                depth -= 1
+                cur += ch
+            elif ch == "," and depth == 0:
+                args.append(cur.strip())
+                cur = ""
+            else:
+                cur += ch
+        if cur.strip():
+            args.append(cur.strip())
+        args = [a for a in args if a]
+        segs, cur, n = [], "", 0
+        k = 0
+        while k < len(lit):
+            if lit.startswith("{{", k):
+                cur += "{"
+                k += 2
+            elif lit.startswith("}}", k):
+                cur += "}"
+                k += 2
+            elif lit.startswith("{}", k):
+                segs.append(cur)
+                cur = ""
+                n += 1
+                k += 2
+            elif lit[k] in "{}":
+                raise Undecided("format! literal uses a placeholder other than {}")
+            else:
+                cur += lit[k]
+                k += 1
+        segs.append(cur)
+        if n != len(args):
+            raise Undecided("format!: %d placeholders, %d arguments" % (n, len(args)))
+        return segs, args
+
+    def _e6(self, sf, it, e, path):
+        """E6: after `let VAR = format!(LIT, args..)` emit assume(VAR@ == lit0 + spec(arg0) + lit1 ...), generated
+        from the literal in the tree. e = (var, ordinal|None, [spec expression per argument])"""
+        var, ordinal, argspecs = e
+        cands = []
+        for l in it["lets"]:
+            if sf.s(l["pat"][0], l["pat"][1]).split(":")[0].strip() == var and l["init"] is not None:
+                t = sf.s(l["init"][0], l["init"][1]).lstrip()
+                if t.startswith("format!"):
+                    cands.append(l)
+        if ordinal is None and len(cands) != 1 or ordinal is not None and ordinal >= len(cands):
+            raise Undecided("%s: E6 anchor `let %s = format!(..)` found %d times" % (path, var, len(cands)))
+        l = cands[ordinal or 0]
+        segs, args = self.parse_format_macro(sf.s(l["init"][0], l["init"][1]))
+        if len(argspecs) != len(args):
+            raise Undecided("%s: E6 for %s: contract gives %d argument specs, format! has %d arguments" % (path, var, len(argspecs), len(args)))
+
+        def q(x):
+            return '"' + x.replace("\\", "\\\\").replace('"', '\\"').replace("\n", "\\n") + '"@'
+        parts = []
+        for i, sg in enumerate(segs):
+            parts.append(q(sg))
+            if i < len(args):
+                parts.append("(" + argspecs[i].replace("$", args[i]) + ")")
+        pos = l["span"][1]
+        if sf.b[pos:pos + 1] == b";":
+            pos += 1
+        txt = "\nproof { assume(%s@ == %s); } // E6 (generated from the literal in the tree)\n" % (var, " + ".join(parts))
+        self.rule("E6", "%s: let %s = format!(..) at %s:%d: value assumed to be the literal's segments with %d displayed arguments" % (path, var, sf.rel, sf.line_of(l["span"][0]), len(args)))
+        return [(pos, pos, txt, "rule", "E6")]
 
     def flush_e9(self):
         for s in self.e9_stubs:
